@@ -4,6 +4,11 @@ From Coq Require Import Floats.SpecFloat.
 From AJ Require Import Model.Base Model.FloatModel Model.Value Model.JsonParse Model.JsonSer Model.MsgPack.
 From AJ Require Import Proofs.MsgPackRT Proofs.JsonSerRT.
 From AJ Require Import Model.MsgPackTypes Spec.MsgPackSpec Proofs.MsgPackTypesProofs.
+From Coq Require Import Reals.
+From Flocq Require Import Core.
+From Flocq Require BinarySingleNaN.
+From AJ Require Import Proofs.NumProofs Proofs.FloatErr.
+From AJ Require Proofs.FloatConv.
 Local Open Scope Z_scope.
 
 (* exactly one object equal to the document: the reader (whose acceptance of well-formed input is C09) decodes
@@ -94,3 +99,23 @@ Example C08_example :
   mp_ser (JObj [([97%N], JArr [JInt 300; JInt (-33); JDouble (sf_of_bits F64 0x4000000000000000); JStr [120%N]; JNull])])
   = [129; 161; 97; 149; 205; 1; 44; 208; 223; 2; 161; 120; 192]%N.
 Proof. vm_compute. reflexivity. Qed.
+
+(* a double is written in the float 32 form exactly when nothing is lost: the 4-byte value then denotes the same real
+   number (the narrowing was exact and in range); otherwise it is written as float 64 with its own 8 bytes
+   (over the reals, through Flocq: standard library Reals axioms) *)
+Theorem C08_float32_form_loses_nothing : forall v, valid F64 v -> FloatModel.is_finite v = true ->
+  (f_eq (fconv F64 (fconv F32 v)) v = true ->
+     mp_f64 v = mp_f32 (fconv F32 v) /\ valid F32 (fconv F32 v) /\
+     FloatModel.is_finite (fconv F32 v) = true /\
+     BinarySingleNaN.SF2R radix2 (fconv F32 v) = BinarySingleNaN.SF2R radix2 v) /\
+  (f_eq (fconv F64 (fconv F32 v)) v = false ->
+     mp_f64 v = bz 0xCB :: be_bytes 8 (bits_of_sf F64 v)).
+Proof. exact FloatConv.mp_f64_f32_branch. Qed.
+Print Assumptions C08_float32_form_loses_nothing.
+
+Theorem C08_float32_form_iff_representable : forall v, valid F64 v -> FloatModel.is_finite v = true ->
+  (f_eq (fconv F64 (fconv F32 v)) v = true <->
+   generic_format radix2 (FLT_exp (-149) 24) (BinarySingleNaN.SF2R radix2 v) /\
+   (Rabs (BinarySingleNaN.SF2R radix2 v) < bpow radix2 128)%R).
+Proof. exact FloatConv.fits_float_iff. Qed.
+Print Assumptions C08_float32_form_iff_representable.
